@@ -48,7 +48,7 @@ REAL_VS_STUB = {
 }
 TIERS = {
     "quick": {"runs": 68000, "budget_s": 55, "chunk": 250, "det_pairs": 64, "fresh": 6},
-    "thorough": {"runs": 560000, "budget_s": 900, "chunk": 400, "det_pairs": 512, "fresh": 32},
+    "thorough": {"runs": 560000, "budget_s": 900, "chunk_timeout": 900, "chunk": 400, "det_pairs": 512, "fresh": 32},
 }
 
 SHARING_OPS = {"em_new", "em_append", "em_extend", "em_copy", "em_slice", "em_add", "em_index",
